@@ -163,3 +163,91 @@ func lastIf(b *ssa.BasicBlock) (*ssa.If, bool) {
 	iff, ok := b.Instrs[len(b.Instrs)-1].(*ssa.If)
 	return iff, ok
 }
+
+// checkAnyURIReader: the xsd:anyURI reader rejects a value only for one of the
+// documented reasons: it is not a string, url.Parse fails, or the result has
+// no scheme. Every construction of an error in DeserializeAnyURI must lie where
+// one of these is known; any further condition (a host, a particular scheme, …)
+// turns IRIs the ontology admits into unknown values.
+func checkAnyURIReader(res *Result, rule string) {
+	sp := loadValuesSSA()["anyuri"]
+	if sp == nil {
+		res.undecided(rule, "values/anyURI", "-", "anyURI codec in SSA form", "package not built")
+		return
+	}
+	fn := sp.Func("DeserializeAnyURI")
+	if fn == nil || len(fn.Blocks) == 0 {
+		res.undecided(rule, "values/anyURI", "-", "DeserializeAnyURI found", "missing")
+		return
+	}
+	pos := func(p interface{ Pos() token.Pos }) string { return relPos(fn.Prog.Fset, p.Pos()) }
+	ff := computeFacts(fn)
+	type want struct {
+		v ssa.Value
+		k factKind
+	}
+	var allowed []want
+	for _, b := range fn.Blocks {
+		for _, ins := range b.Instrs {
+			switch x := ins.(type) {
+			case *ssa.Extract:
+				if c, ok := x.Tuple.(*ssa.Call); ok && x.Index == 1 {
+					if f := c.Common().StaticCallee(); f != nil && f.Pkg != nil && f.Pkg.Pkg.Path() == "net/url" && f.Name() == "Parse" {
+						allowed = append(allowed, want{x, fNONNIL})
+					}
+				}
+				if ta, ok := x.Tuple.(*ssa.TypeAssert); ok && x.Index == 1 && isParamNamed(ta.X, "this") {
+					allowed = append(allowed, want{x, fFALSE})
+				}
+			case *ssa.BinOp:
+				// len(u.Scheme) == 0   |   u.Scheme == ""
+				isScheme := func(v ssa.Value) bool {
+					if c, ok := v.(*ssa.Call); ok {
+						if bi, ok := c.Common().Value.(*ssa.Builtin); ok && bi.Name() == "len" {
+							v = c.Common().Args[0]
+						} else {
+							return false
+						}
+					}
+					_, ok := loadOfField(v, "Scheme")
+					return ok
+				}
+				if isScheme(x.X) {
+					zero := false
+					if n, ok := intConst(x.Y); ok && n == 0 {
+						zero = true
+					}
+					if sv, ok := stringConst(x.Y); ok && sv == "" {
+						zero = true
+					}
+					if zero {
+						switch x.Op {
+						case token.EQL, token.LEQ:
+							allowed = append(allowed, want{x, fTRUE})
+						case token.NEQ, token.GTR:
+							allowed = append(allowed, want{x, fFALSE})
+						}
+					}
+				}
+			}
+		}
+	}
+	n := 0
+	for _, ci := range callsIn(fn) {
+		f := ci.Common().StaticCallee()
+		if f == nil || f.Pkg == nil || !(f.Pkg.Pkg.Path() == "fmt" && f.Name() == "Errorf" || f.Pkg.Pkg.Path() == "errors" && f.Name() == "New") {
+			continue
+		}
+		n++
+		ok := ff.holdsOnEveryPath(ci, func(s *factState) bool {
+			for _, a := range allowed {
+				if s.facts[fact{ff.canon(s, a.v), a.k, ""}] {
+					return true
+				}
+			}
+			return false
+		}, 8)
+		res.check(ok, rule, "values/anyURI", pos(ci), "a value is rejected as an IRI only because it is not a string, does not parse, or has no scheme", "this rejection can be reached for a string that parses and has a scheme: IRIs the ontology admits (urn:, mailto:, magnet:, …) are turned into unknown values; facts: "+ff.describe(ci))
+	}
+	res.Count(rule+" anyURI rejections", n, 2)
+}
